@@ -62,9 +62,9 @@ CLAIMED = {
             "BufferWriter->BufferReader with symbolic contents; every truncation point; WriteSizeCalculator agreement.",
             "DESIGN.md 3/C15",
             "capacity <= 4 (quick) / 6 (thorough) bytes; round-trip shapes: POD tuple, vector<int> 0..1 (2 thorough), AbstractArray<int> 0..2; "
-            "std::string payloads of length <= 2 / 3 with every byte value (libstdc++ string model); vector<string> not covered; getView<T> only compiles for uint8_t; "
+            "std::string payloads of length <= 2 / 3 with every byte value (cbmc, libstdc++ string model) and of length 15/16/33 plus vector<string> of 0-3 strings (vp/llpath.py unit, real libstdc++ code); getView<T> only compiles for uint8_t; "
             "allocation never fails",
-            "bounded model checking (cbmc) of LLVM-IR-derived C, native sanitizer replay"),
+            "bounded model checking (cbmc) of LLVM-IR-derived C + symbolic execution of LLVM IR with z3 (vp/llpath.py), native sanitizer replay"),
     "C04": ("other",
             "SMT verdicts (z3) over all operand values for every instantiated vec_t operator: the real vec.h code is lowered to LLVM IR and "
             "executed symbolically; component k of each result must equal the scalar definition on component k. Integers are bit-precise "
